@@ -621,8 +621,7 @@ func (e *Env) call(x *SExpr) Val {
 			return Val{T: tInt, S: sx("strlen", v.S)}
 		case KRef:
 			if _, ok := v.T.Underlying().(*types.Map); ok {
-				fc.regArr("G!maplen", "(Array Int Int)")
-				return Val{T: tInt, S: sx("select", e.state.get("G!maplen"), v.S)}
+				return Val{T: tInt, S: sx("select", e.state.get(fc.maplenArr(v.S)), v.S)}
 			}
 		}
 		return e.errorf("len of %s", x.Args[0].String())
